@@ -115,6 +115,8 @@ def run(tier):
     t0 = time.time()
     deadline = 110 if tier == "quick" else 1500
     errors, failures = [], []
+    phases = {}
+    tp = time.time()
     # 0. self-test of the scheduler/explorer on toy programs
     st_exe = build.build_vgomp_selftest()
     r = subprocess.run(["taskset", "-c", "0", st_exe], stdout=subprocess.PIPE, stderr=subprocess.STDOUT, text=True, timeout=600)
@@ -122,6 +124,9 @@ def run(tier):
     if not selftest_ok:
         errors.append("vgomp self-test failed: " + r.stdout[-500:])
     selftest_execs = sum(int(m) for m in re.findall(r"executions=(\d+)", r.stdout))
+    phases['selftest'] = round(time.time() - tp, 1)
+    tp = time.time()
+
     # 1. reference bytes from the OpenMP-free build (also runs the monitors on it)
     ref_exe = build.build_harness("C02", "serial-asan", ["harness/C02_sched.c"])
     r = subprocess.run([ref_exe, "--mode", "ref"], stdout=subprocess.PIPE, stderr=subprocess.PIPE, text=True, env=c02env(), timeout=600)
@@ -148,6 +153,9 @@ def run(tier):
     for rec in conf:
         if not rec["agree"] and not conf_err:
             errors.append("model conformance: Promela model and implementation disagree: %s" % rec)
+    phases['refs+model'] = round(time.time() - tp, 1)
+    tp = time.time()
+
     # 2. exploration
     jobs = jobs_for(tier)
     exes = {}
@@ -223,6 +231,8 @@ def run(tier):
                         "distinct_event_orders_max_per_shard": agg[top]["orders"] if top is not None else 0,
                         "schedules_with_overlapping_merges": agg[top]["merge_overlap"] if top is not None else 0,
                         "schedules_with_overlapping_fwd_bwd": agg[top]["kernel_overlap"] if top is not None else 0})
+    phases['exploration'] = round(time.time() - tp, 1)
+    tp = time.time()
     # 3. canonical schedule for every thread count 1..64 (x nested on/off x default policies), twice for N<=2
     canon_runs = 0
     canon_inputs = sorted(refs) if tier == "thorough" else [k for k in sorted(refs) if k != 13]
@@ -246,6 +256,8 @@ def run(tier):
                 f["rec"] = None
                 f["text"] = "canonical schedule: " + f["text"]
                 failures.append(f)
+    phases['canonical'] = round(time.time() - tp, 1)
+    tp = time.time()
     # 4. free-running race pass under ThreadSanitizer (same harness bodies, real concurrent threads)
     tsan_exe = build.build_harness("C02", "vgomp-tsan", ["harness/C02_sched.c"])
     tsan_runs = 0
@@ -281,6 +293,8 @@ def run(tier):
                                  "text": "input %s, %d threads, nested=%d: %s" % (names.get(cfg[0]), cfg[1], cfg[2], " / ".join(l.strip() for l in rep[1:9])[:700])})
             elif rr.returncode != 0:
                 errors.append("TSan run %s exited %d: %s" % (cfg, rr.returncode, rr.stderr[-300:]))
+    phases['tsan'] = round(time.time() - tp, 1)
+    tp = time.time()
     # 5. supplementary sample on the real libgomp (not deciding)
     gomp_exe = build.build_harness("C02", "gomp", ["harness/C02_sched.c"], extra_cflags=("-DNO_VGOMP",))
     gomp_runs = 0
@@ -308,6 +322,7 @@ def run(tier):
             if rr.returncode != 0:
                 errors.append("libgomp run %s exited %d: %s" % (cfg, rr.returncode, rr.stderr[-300:]))
 
+    phases['libgomp'] = round(time.time() - tp, 1)
     # triage: every scheduled failure is replayed twice in fresh processes and must reproduce identically
     def confirm_factory(fl):
         def confirm(idx):
